@@ -94,6 +94,9 @@ class TapMixin:
         if self._pending_sentinel is not None and self._pending_sentinel[0] == lb:
             self._pending_sentinel = None
         self.log.append(('P', self.tick(), lb, self.now, self.step_no, ok, val))
+        wc = getattr(self, 'wallclock', None)
+        if wc is not None:
+            self.log.append(('W', self.tick(), lb, wc.t, self.now))
 
     def schedule(self, event, priority=NORMAL, delay=0):
         if self.tap_enabled:
